@@ -3987,7 +3987,7 @@ func runOffsetAppliesToItsString(rr *RuleRun) {
 
 func init() {
 	register(&Rule{
-		ID: "C12.value-read-under-its-flag", Prop: "C12", Also: []string{"C11"}, Floor: 2, Controls: 0,
+		ID: "C12.value-read-under-its-flag", Prop: "C12", Also: []string{"C11"}, Floor: 1, Controls: 0,
 		Doc: "in the standard functions, a variable that is filled in only inside the branch that also raises a validity flag (startIndex with startKnown = true, set only when the argument is known) is compared with anything outside that branch only where the flag was tested true on every path: otherwise the zero placeholder of an unknown argument is compared as if it were the argument, and an unknown argument makes a call fail that succeeds for every known value",
 		Run: runValueReadUnderItsFlag,
 	})
